@@ -206,6 +206,11 @@ LIB_CLASSES["torch.Tensor"] = {"bases": ["object"]}
 @lib("torch.is_tensor")
 def _is_tensor(args, kwargs, st, eng):
     v = eng.deref(args[0], st)
+    from .libimg import AbsImage
+    if isinstance(v, AbsImage):
+        if not hasattr(v, "_is_tensor"):
+            v._is_tensor = z3.Bool(uid("input_is_tensor"))
+        return VBool(v._is_tensor)
     if isinstance(v, VSeq) and v.kind is not None:
         return VBool(v.kind == 1)
     return VBool(False)
